@@ -449,7 +449,7 @@ fn budgets(rep: &Reporter, n_runs: usize) {
 fn optimize_path(rep: &Reporter) {
     use mahf::heuristics::{es, fa, ga, ils, ls};
     use mahf::state::common::Evaluator;
-    for k in 0..rep.tier.pick(40u64, 400u64) {
+    for k in 0..rep.tier.pick(40u64, 2000u64) {
         let problem = templates::real_instance((k % 6) as usize);
         let n = 1 + (k % 7) as u32;
         let (cfg, name) = match k % 4 {
@@ -495,7 +495,7 @@ fn main() {
     rep.rule("every PopulationEvaluator child observed through the step-observer hook (snapshot of the whole population stack, evaluation counter and objective call log before/after) in (1) runs of all 21 templates over the parameter catalogue with sequential and parallel evaluators in rayon pools of 1/2/3/4/7/16 threads with perturbed objective latency, (2) generated configurations mixing evaluation steps under identifiers Global/A/B (sequential or parallel, some deliberately not registered), population sizes 0..64, steps inside scopes, loops and branches, (3) evaluation-budget runs; per step: same individuals, order and solutions, all evaluated with f_pure, each solution evaluated exactly once (multiset of the call log), counter delta = population size = call delta; per run: reported evaluations = objective calls; missing identifier => error before anything executes. distinct_nontrivial = distinct runs / configurations");
     rep.assume("objective call log of the harness problems is complete and pure; completion order diversity is what the latency perturbation produced (reported, not exhaustive)");
     let pools: Vec<rayon::ThreadPool> = [1usize, 2, 3, 4, 7, 16].iter().map(|&n| rayon::ThreadPoolBuilder::new().num_threads(n).build().unwrap()).collect();
-    let seeds = rep.tier.pick(8usize, 40usize);
+    let seeds = rep.tier.pick(8usize, 120usize);
     let cases = templates::cases(rep.quick(), rep.seed, seeds);
     let n = cases.len();
     std::thread::scope(|s| {
@@ -514,8 +514,8 @@ fn main() {
         }
     });
     rep.count("template_runs", n as u64);
-    generated(&rep, rep.tier.pick(10_000, 80_000), &pools);
-    budgets(&rep, rep.tier.pick(1_000, 6_000));
+    generated(&rep, rep.tier.pick(10_000, 400_000), &pools);
+    budgets(&rep, rep.tier.pick(1_000, 30_000));
     optimize_path(&rep);
     if rep.counter("evaluation_steps_observed") == 0 {
         rep.inconclusive("hook never reached: no evaluation step observed");
